@@ -30,6 +30,7 @@ Requests (one per line, answers one line each):
   sblock <id> <pre014 0|1> item...  State.Update + Commitment; items in application order:
         D:<class>:<casm> M:<class>:<casm> P:<addr>:<class> R:<addr>:<class> N:<addr>:<nonce>
         S:<addr>:<key>=<val>,<key>=<val>...                                    -> <term> | rejected
+  sdiscard <id> <pre014> item...    the same update executed and DROPPED (state unchanged)  -> <term> | rejected
 Terms are printed in prefix form: f<hex> | P(a,b) | S(a,b) | T(a,b,c) | A(t,<hex>).
 -/
 open Juno.Proto Juno.C01
@@ -270,6 +271,20 @@ def step (s : St) (line : String) : St × String :=
           | some st' =>
             ({ s with states := (id, (purge, st')) :: s.states.filter (·.1 != id) },
               termStr (State.commitment (pre != 0) st'))
+          | none => (s, "rejected")
+        | none => (s, "bad-op")
+      | none => (s, "bad-op")
+    | _, _ => (s, "bad-op")
+  | "sdiscard" :: id :: pre :: items =>
+    -- an update that is executed and dropped: answer the root it computes, keep the state
+    match id.toNat?, pre.toNat? with
+    | some id, some pre =>
+      match s.states.find? (·.1 == id) with
+      | some (_, (purge, st)) =>
+        match items.foldlM addItem (⟨[], [], [], [], [], []⟩ : State.Diff) with
+        | some d =>
+          match State.update purge st d with
+          | some st' => (s, termStr (State.commitment (pre != 0) st'))
           | none => (s, "rejected")
         | none => (s, "bad-op")
       | none => (s, "bad-op")
